@@ -16,11 +16,9 @@ def _fill(rng, n, excl):
 
 
 def _no_crlf(b):
-    """CR is allowed unless followed by LF; make sure of it (and that the string does not end with CR)."""
-    b = b.replace(b"\r\n", b"\rx")
-    if b.endswith(b"\r"):
-        b = b[:-1] + b"y"
-    return b
+    """CR is allowed unless followed by LF; make sure of it.  A string may end with CR(s): the terminator's own CR
+    follows, which is not an LF."""
+    return b.replace(b"\r\n", b"\rx")
 
 
 def gen_banner(rng):
@@ -28,11 +26,14 @@ def gen_banner(rng):
     proto = rng.choice([b"2.0", b"1.99"])
     vext = bytes(rng.choice(b"0123456789.") for _ in range(rng.choice([0, 0, 0, 1, 3])))
     soft = _no_crlf(_fill(rng, rng.randrange(0, 40), (0x20, 0x0A)))
+    if rng.random() < 0.15:
+        soft += b"\r" * rng.randrange(1, 4)          # software ending in lone CR(s)
     out = b"SSH-" + proto + vext + b"-" + soft
     if rng.random() < 0.5:
         com = _no_crlf(_fill(rng, rng.randrange(0, 40), (0x0A,)))
+        if rng.random() < 0.15:
+            com += b"\r" * rng.randrange(1, 4)
         out += b" " + com
-    out = _no_crlf(out)
     out += b"\r\n"
     if rng.random() < 0.3:
         out += _fill(rng, rng.randrange(1, 60), ())
